@@ -16,7 +16,7 @@ import time
 VERIF = os.path.dirname(os.path.dirname(os.path.abspath(__file__)))
 WORK = os.environ.get("LSV_WORK", os.path.join(VERIF, ".work"))
 DRIVER_DIR = os.path.join(VERIF, "driver")
-DRIVER_TARGET = os.path.join(WORK, "driver-target")
+DRIVER_TARGET = os.path.join(VERIF, ".work", "driver-target")
 DRIVER_BIN = os.path.join(DRIVER_TARGET, "release", "lsv-driver")
 REPO = os.environ.get("LSV_REPO", "/repo")
 
